@@ -310,6 +310,9 @@ func runScenario(s scenario) *demuxRun {
 		if scenarioAfterCall != nil {
 			scenarioAfterCall()
 		}
+		if err != nil {
+			d = nil // a value handed out together with an error is not a result
+		}
 		out.data = append(out.data, d)
 		if d != nil && scenarioScribble != nil {
 			scenarioScribble(d)
@@ -333,6 +336,9 @@ func runScenario(s scenario) *demuxRun {
 		out.results = append(out.results, L(r, I(int64(pos()))))
 		if scenarioAfterCall != nil {
 			scenarioAfterCall()
+		}
+		if err != nil {
+			p = nil // a value handed out together with an error is not a result
 		}
 		out.packets = append(out.packets, p)
 		if p != nil && scenarioScribble != nil {
